@@ -15,6 +15,9 @@ LOOKALIKES = ["yes", "No", "TRUE", "off", "on", "y", "n", "~", "null", "Null", "
               "... ", "- a", "? a", ": a", "a: b", "a #b", "a:b", "#a", "&a", "*a", "!a", "!!str", "|", ">",
               "%TAG", "%YAML 1.1", "@a", "`a", "{a}", "[a]", "a, b", "'", "\"", "\\", "\\n", "0", "-0", "+1",
               "1.", "-.5", "1e5", "0.0", "12e03", "-", "?", ":", ".", "..", "_", "+", "true", "false", "Yes"]
+# an indicator INSIDE a word (not leading, not followed by a space): plain in block context, not always in flow context
+INNER = ["a?b", "why?not", "a,b", "a[b", "a]b", "a{b", "a}b", "x:y", "a#b", "a&b", "a*b", "a!b", "a|b", "a>b", "a%b", "a@b", "a`b",
+         "a-b", "a?", "a:", "a,", "a[", "a]", "a{", "a}", "a# b", "a ?b", "a? b", "a\"b", "a'b", "a\\b", "a=b", "a<b"]
 BREAKS = ["\n", "\n", "\n", "\r", "\r\n", NEL, LS, PS]
 SPECIAL_CH = ["\t", " ", "  ", BOM, NBSP, "\x00", "\x01", "\x07", "\x1b", "\x7f", "\x80", "\x84", "\x86", "\x9f",
               "\ufffe", "\uffff", "\ud7ff", "\ue000", "\ufffd", "\U00010000", "\U0001F600", "\U0010ffff",
@@ -35,6 +38,7 @@ def atom():
         st.sampled_from(INDICATORS).map(lambda c: " " + c),
         st.sampled_from(LOOKALIKES),
         st.sampled_from(SPECIAL_CH),
+        st.sampled_from(INNER),
         any_char(),
     )
 
@@ -69,13 +73,18 @@ def edge_text():
     return st.tuples(edge, mid, edge).map("".join)
 
 
+def inner_indicator_text():
+    """Short strings that are plain-safe except for one indicator inside a word; alone and as a few space-separated words."""
+    return st.lists(st.one_of(st.sampled_from(INNER), st.sampled_from(INNER), st.sampled_from(WORDS)), min_size=1, max_size=3).map(" ".join)
+
+
 def text(max_atoms=12):
-    return st.one_of(generic_text(max_atoms), generic_text(max_atoms), folded_shape_text(), long_words_text(),
+    return st.one_of(inner_indicator_text(), generic_text(max_atoms), generic_text(max_atoms), folded_shape_text(), long_words_text(),
                      edge_text(), st.sampled_from(LOOKALIKES), st.text(max_size=20))
 
 
 def key_text():
-    return st.one_of(st.sampled_from(WORDS), st.sampled_from(LOOKALIKES), generic_text(4), text(6),
+    return st.one_of(st.sampled_from(WORDS), st.sampled_from(INNER), st.sampled_from(LOOKALIKES), generic_text(4), text(6),
                      st.sampled_from(["k" * 127, "k" * 128, "k" * 129, "k " * 70, "a\nb", "a\n\nb\n"]),
                      # keys whose *written* length differs a lot from their length: every character becomes an escape
                      st.tuples(st.sampled_from(["\U0001F600", "\u65e5", "\xe9", "\x07", "\x85", "\ufeff", "\U0010ffff"]),
